@@ -8,6 +8,23 @@
 // replays every case on the real operators in worker processes, evaluates
 // the property's own oracle (naive group-by / nested-loop join computed in
 // Go) on the real output, and compares the real output with the prediction.
+//
+// Files: main.go (orchestration, group-by verdicts, probes), join.go (join
+// verdicts, comparator precheck), model.go (key tokens, rows, reference
+// aggregates, projection of real rows), runner.go (running a program on the
+// real runtime with controlled batches / declared order / spill hook),
+// worker.go (worker processes, crash attribution), replay.go (--replay).
+//
+// Verdicts: the oracle fails on a real run -> Violate; the signature is a
+// known finding only if the real output is exactly what the transcription
+// predicts through a named defect path (taint), otherwise it is
+// "unpredicted".  Oracle holds but no behaviour of the spec explains the run
+// (or the spill runs differ) -> Drift.
+//
+// Development aids: C10_ONLY=gb|join runs one half (and exits 2);
+// C10_CORRUPT=spec|real corrupts one predicted / one observed value of one
+// fixed run (must give DRIFT / VIOLATION: the binding self-test);
+// C10_KEEP=1 keeps the workers' task and result files in the scratch dir.
 package main
 
 import (
@@ -28,18 +45,14 @@ func main() {
 		workerMain(os.Args[2:])
 		return
 	}
-	if len(os.Args) > 1 && os.Args[1] == "exp" {
-		expMain()
-		return
-	}
 	core.Main("C10", "model_checking", run)
 }
 
-const nWorkers = 8
+var nWorkers = 8
 
 func run(c *core.Ctx) error {
 	c.Trust("TLC 1.8; the projection of real output rows onto key tokens / row-id sets (harness); the reference aggregate functions and nested-loop join of the harness; zson parser/formatter for literals")
-	c.Assume("key universe {1, 1(uint64), 1., 2, 3, \"a\", missing, null(int64), null(string)} x secondary {0,1}; aggregate arguments are small int64 / bool / int-or-string values with nulls and absent fields; inputs of at most MaxRows rows (see cfg); an input declared sorted is in pool order (nulls max, missing as null) or is the output of a real `sort`")
+	c.Assume("key universe {1, 1(uint64), 1., 2, 3, \"a\", missing, null(int64), null(string)} x secondary {0,1}; aggregate arguments are small non-zero int64 values, bools and records {a:int64|string} with nulls and absent fields (a sparse pass makes every argument of a key absent or null); inputs of at most MaxRows rows (see cfg); an input declared sorted is in pool order (nulls max, missing as null) or is the output of a real `sort`")
 	c.Rule("cases = finished behaviours of GroupBy.tla / MergeJoin.tla (input x batching x table limit x declared order x direct|partials; join kind x declared directions x key multiplicities), each replayed on the real operators; distinct by (case, replay mode); non-trivial = the real run spilled at least once, released rows before end of input, composed partials, or (join) produced at least one pair/outer row")
 	if c.Replay != "" {
 		return replay(c)
@@ -173,18 +186,27 @@ type gbJob struct {
 	Agg     string  `json:"agg,omitempty"` // sparse pass: the one aggregate under test
 }
 
-func byClause(withSec, rename bool) string {
-	k := "k"
-	if rename {
-		k = "k:=k"
-	}
+// byClause renders the keys: k, optionally the second column j, optionally a
+// third, computed key z (always 0).  rename = the partials-in form, which
+// refers to the keys by name.
+func byClause(withSec, third, rename bool) string {
+	keys := []string{"k"}
 	if withSec {
-		if rename {
-			return k + ",j:=j"
-		}
-		return k + ",j"
+		keys = append(keys, "j")
 	}
-	return k
+	if rename {
+		for i, k := range keys {
+			keys[i] = k + ":=" + k
+		}
+	}
+	if third {
+		if rename {
+			keys = append(keys, "z:=z")
+		} else {
+			keys = append(keys, "z:=u-u")
+		}
+	}
+	return strings.Join(keys, ",")
 }
 
 func limitClause(limit int) string {
@@ -232,7 +254,8 @@ func makeJobs(cs *gbCase, seed int64, aggs string, sparse bool) []gbJob {
 	if sparse {
 		sparsify(rows, seed*7919+h)
 	}
-	summ := "summarize " + aggs + " by " + byClause(withSec, false) + limitClause(p.Limit)
+	third := (seed+h)%3 == 0 // a third of the cases get a third, computed key
+	summ := "summarize " + aggs + " by " + byClause(withSec, third, false) + limitClause(p.Limit)
 	job := gbJob{Case: cs, CaseKey: cs.key, Rows: rows, WithSec: withSec}
 	var jobs []gbJob
 	switch {
@@ -260,7 +283,7 @@ func makeJobs(cs *gbCase, seed int64, aggs string, sparse bool) []gbJob {
 		j := job
 		j.How = "kernel"
 		j.Task = task{Kind: "gb2", WithSec: withSec, Prog: summ, B2: p.B2,
-			Prog2: "summarize " + aggs + " by " + byClause(withSec, true) + limitClause(p.Limit)}
+			Prog2: "summarize " + aggs + " by " + byClause(withSec, third, true) + limitClause(p.Limit)}
 		if p.Src != "unsorted" {
 			j.Task.SortKey = p.Src
 		}
@@ -466,21 +489,71 @@ func crashSig(msg string) string {
 }
 
 func groupBy(c *core.Ctx) error {
-	cfg, nRandom := "GroupBy.quick.cfg", 500
+	cfg, nRandom := "GroupBy.quick.cfg", 350
 	if !c.Quick() {
-		cfg, nRandom = "GroupBy.thorough.cfg", 12000
+		cfg, nRandom = "GroupBy.thorough.cfg", 3000
+		nWorkers = 12
 	}
 	var sums []gbSummary
-	res := c.MustHold(core.TLCRun{Module: "GroupBy", Cfg: cfg, Workers: 8, Coverage: true, Timeout: 25 * time.Minute})
+	res := c.MustHold(core.TLCRun{Module: "GroupBy", Cfg: cfg, Workers: 8, Timeout: 25 * time.Minute})
 	if res == nil {
 		return nil
-	}
-	if len(res.ZeroCov) > 0 {
-		c.Inconclusive("GroupBy.tla: actions never taken (vacuous): %v", res.ZeroCov)
 	}
 	s1, err := parsePrints[gbSummary](res.Prints)
 	if err != nil {
 		return err
+	}
+	// Non-vacuity of the model run (TLC's -coverage triples the run time; every
+	// action of GroupBy.tla lies on the path of a finished behaviour, so the
+	// finished behaviours are counted instead).
+	nv := map[string]int{}
+	for i := range s1 {
+		p := &s1[i]
+		nv["finished"]++
+		if len(p.Spills) > 0 {
+			nv["with_spill"]++
+		}
+		if len(p.Out) > 1 {
+			nv["released_before_end_of_input"]++
+		}
+		if p.Mode == "partials" {
+			nv["partials"]++
+		}
+		if p.Crash {
+			nv["crash"]++
+		}
+		if len(p.Taint) == 0 {
+			nv["untainted"]++
+		}
+		if len(p.Taint) == 0 && len(p.Spills) > 0 && len(p.Out) > 1 {
+			nv["untainted_spill_and_early_release"]++
+		}
+	}
+	c.Set("groupby_model_nonvacuity", nv)
+	for _, k := range []string{"with_spill", "released_before_end_of_input", "partials", "crash", "untainted_spill_and_early_release"} {
+		if nv[k] == 0 {
+			c.Inconclusive("GroupBy.tla %s: no finished behaviour %s (vacuous model run)", cfg, k)
+		}
+	}
+	allExhaustive := true
+	capCases := func(in []gbSummary, limit int, salt int64) []gbSummary {
+		cs := groupCases(in)
+		if len(cs) <= limit {
+			return in
+		}
+		allExhaustive = false
+		rng := rand.New(rand.NewSource(c.Seed + salt))
+		rng.Shuffle(len(cs), func(i, j int) { cs[i], cs[j] = cs[j], cs[i] })
+		var out []gbSummary
+		for _, g := range cs[:limit] {
+			for _, p := range g.preds {
+				out = append(out, *p)
+			}
+		}
+		return out
+	}
+	if !c.Quick() {
+		s1 = capCases(s1, 6000, 1)
 	}
 	sums = append(sums, s1...)
 	c.Logf("GroupBy %s: %d distinct states, %d finished behaviours, invariants hold", cfg, res.Distinct, len(s1))
@@ -494,8 +567,8 @@ func groupBy(c *core.Ctx) error {
 			if err != nil {
 				return err
 			}
-			sums = append(sums, s...)
 			c.Logf("GroupBy %s: %d distinct states, %d finished behaviours, invariants hold", extra, r.Distinct, len(s))
+			sums = append(sums, capCases(s, 2500, int64(len(sums)))...)
 		}
 	}
 	// larger cases chosen at random (seeded); TLC explores every behaviour of each
@@ -515,6 +588,8 @@ func groupBy(c *core.Ctx) error {
 	cases := groupCases(sums)
 	c.Set("groupby_cases", len(cases))
 	c.Set("groupby_cases_exhaustive", exhaustiveCases)
+	c.Set("groupby_exhaustive_space_fully_replayed", allExhaustive)
+	c.Set("exhaustive", false) // the random cases and (quick tier) the join cases are samples
 	nt := map[string]int{}
 	for _, cs := range cases {
 		for _, p := range cs.preds {
@@ -531,9 +606,9 @@ func groupBy(c *core.Ctx) error {
 	}
 	// sparse pass: one aggregate at a time over groups whose arguments are all absent / all null
 	rng := rand.New(rand.NewSource(c.Seed + 10))
-	nSparse := 12
+	nSparse := 10
 	if !c.Quick() {
-		nSparse = 400
+		nSparse = 120
 	}
 	aggDefs := strings.Split(aggList, ", ")
 	for i := 0; i < nSparse && len(cases) > 0; i++ {
@@ -614,6 +689,8 @@ func probes(c *core.Ctx) error {
 	}
 	return nil
 }
+
+var sampleKinds = map[string]int{}
 
 func judgeGB(c *core.Ctx, j *gbJob, r result) error {
 	p0 := j.Case.preds[0]
@@ -735,10 +812,10 @@ func judgeGB(c *core.Ctx, j *gbJob, r result) error {
 			}
 			c.Add("runs_matching_spec_exactly", 1)
 		}
-		if len(c.KnownFindings()) == 0 && j.Task.ID%997 == 0 {
-			c.Sample(map[string]any{"how": j.How, "prog": j.Task.Prog, "batches": j.Task.Batches, "legs": j.Task.Legs, "real": last.Batches, "spills": last.Spills})
-		} else if j.Task.ID%997 == 0 {
-			c.Sample(map[string]any{"how": j.How, "prog": j.Task.Prog, "batches": j.Task.Batches, "legs": j.Task.Legs, "real": last.Batches, "spills": last.Spills})
+		if sampleKinds[j.How] < 2 && (nSpills > 0 || early) && len(j.Rows) >= 3 {
+			sampleKinds[j.How]++
+			c.Sample(map[string]any{"how": j.How, "program": j.Task.Prog, "declared_order": j.Task.SortKey, "input_batches": j.Task.Batches, "leg_inputs": j.Task.Legs,
+				"real_output_batches": last.Batches, "real_spill_runs": last.Spills, "spec_output": specBatchSig(p0.Out)})
 		}
 		return nil
 	}
